@@ -152,7 +152,7 @@ def vm_cond(ctx):
         sub = () if inst == 'orswot' else ('clock',)
         vb = ctx.method(adt, 'CvRDT', 'validate_merge')
         it = interp(facts, vb)
-        errs_s = ret_sites_by(it, lambda v: is_variant(v, 'result::Result', 'Err') and v[3][0][1][0] == 'agg' and v[3][0][1][2] == 'DoubleSpentDot')
+        errs_s = build_sites(it, lambda v: is_variant(v, 'result::Result', 'Err') and v[3][0][1][0] == 'agg' and v[3][0][1][2] == 'DoubleSpentDot')
         if not errs_s:
             ctx.fail(inst, vb, 'validate_merge never reports DoubleSpentDot')
             continue
